@@ -166,6 +166,59 @@ func init() {
 }
 
 func init() {
+	// exchangePub alone: the node's own key (fan-out) and the batches of peer keys pdkg.Loop hands over.
+	// The batch is chosen by the picks: a value that is not a PublicKey (cast fails), a key for an index
+	// nobody in the group has (foreign), a complete set (2 members), an incomplete one (3 members).
+	wires["grouping|dkg.exchangePub"] = func(s *scen, ctx context.Context, cancel context.CancelFunc) (*instance, error) {
+		ids := [][]byte{[]byte("member-a-00000000000"), []byte("member-b-00000000000")}
+		if i, ok := s.pick["if len(partPubs) == len(groupIds)"]; ok && i == 1 {
+			ids = append(ids, []byte("member-c-00000000000"))
+		}
+		selfc := make(chan interface{})
+		peerc := make(chan []interface{}, 1) // askMembers: make(chan []interface{}, 1)
+		inst := &instance{chans: map[string]reflect.Value{"dkg.fanOut.ch#1": rv(selfc), "dkg.askMembers.out#0": rv(peerc)},
+			cancel: cancel, watch: []string{"dkg.exchangePub"}}
+		key := func(i int, sender []byte) *dkg.PublicKey {
+			return &dkg.PublicKey{SessionId: "5e55", Index: uint32(i), Publickey: &vss.PublicKey{Binary: []byte{1}, SenderId: sender}}
+		}
+		inst.value = func(ch string, _ int) reflect.Value {
+			if ch == "dkg.fanOut.ch#1" {
+				return rv(key(0, ids[0]))
+			}
+			batch := []interface{}{key(1, ids[1])}
+			if i, ok := s.pick["if !ok"]; ok && i == 0 {
+				batch = []interface{}{"not a public key"}
+			} else if i, ok := s.pick["if pubkey == nil"]; ok && i == 0 {
+				batch = []interface{}{key(9, ids[1])}
+			}
+			return rv(batch)
+		}
+		inst.start = func() {
+			out, errc := dkg.VerifPExchangePub(ctx, selfc, peerc, ids, "5e55")
+			inst.chans["dkg.exchangePub.out#0"] = rv(out)
+			inst.chans["dkg.exchangePub.errc#0"] = rv(errc)
+		}
+		startNow(s, inst)
+		return inst, nil
+	}
+	// sendToMembers with its per-member senders; the peers acknowledge at once
+	wires["grouping|dkg.sendToMembers#0,dkg.sendToMembers.go1#0"] = func(s *scen, ctx context.Context, cancel context.CancelFunc) (*instance, error) {
+		ids := [][]byte{[]byte("member-a-00000000000"), []byte("member-b-00000000000"), []byte("member-c-00000000000")}
+		msgc := make(chan interface{})
+		inst := &instance{chans: map[string]reflect.Value{"dkg.fanOut.ch#0": rv(msgc)}, cancel: cancel, watch: []string{"dkg.sendToMembers"}}
+		inst.value = func(string, int) reflect.Value {
+			return rv(&dkg.PublicKey{SessionId: "5e55", Index: 0, Publickey: &vss.PublicKey{Binary: []byte{1}}})
+		}
+		inst.start = func() {
+			errc := dkg.VerifPipesSendToMembers(ctx, msgc, doubles.NewP2P(ids[0], 1), ids, "5e55")
+			inst.chans["dkg.sendToMembers.errc#0"] = rv(errc)
+		}
+		startNow(s, inst)
+		return inst, nil
+	}
+}
+
+func init() {
 	logger := func() *doubles.Logger { return doubles.NewLogger() }
 	ids := [][]byte{[]byte("node-a-0000000000000"), []byte("node-b-0000000000000"), []byte("node-c-0000000000000")}
 	// choseSubmitter alone (two submitter channels of capacity 1, error channel)
